@@ -67,7 +67,7 @@ def r1_interval(ctx):
         return [bool_key(Normalizer(None, inline=False).guard(t)) for t in comp.generators[0].ifs], astx.u(comp.generators[0].iter)
     fz, fi = (filt(z) if z is not None else None), (filt(iv) if iv is not None else None)
     good = fz is not None and fi is not None and fz[1] == fi[1] == "self.interval.items()" and re.fullmatch(r"\['eq\((\w+), 0\)'\]", str(fz[0])) is not None \
-        and re.fullmatch(r"\['not le\((\w+), 0\)'\]", str(fi[0])) is not None and nz is not None and astx.u(nz) == "frozenset(self.interval.keys())"
+        and re.fullmatch(r"\['not le\((\w+), 0\)'\]", str(fi[0])) is not None and nz is not None and astx.u(nz) == "frozenset(self.interval)"
     ctx.check(good, f, f.node, "zero supports are set aside (== 0), positive ones kept (> 0), non_zero_cands = kept keys", f"{fz} / {fi}",
               f"partition filters are {fz} / {fi}")
     # the interval owns its data: both steps rebuild the mapping on every path (no early exit that
@@ -88,7 +88,7 @@ def r1_interval(ctx):
     order = [astx.call_name(c) for c in astx.calls_in(init.node) if astx.call_name(c) in ("_remove_zero_support_cands", "_normalize")]
     ctx.check(order == ["_remove_zero_support_cands", "_normalize"], init, init.node, "constructor: set zeros aside, then normalise", str(order), f"constructor order is {order}")
     cand = [n for n in astx.walk_own(init.node) if isinstance(n, ast.Assign) and astx.u(n.targets[0]) == "self.candidates"]
-    ctx.check(len(cand) == 1 and astx.u(cand[0].value) == "frozenset(self.interval.keys())" and cand[0].lineno < min(c.lineno for c in astx.calls_in(init.node, "_remove_zero_support_cands")),
+    ctx.check(len(cand) == 1 and astx.u(cand[0].value) == "frozenset(self.interval)" and cand[0].lineno < min(c.lineno for c in astx.calls_in(init.node, "_remove_zero_support_cands")),
               init, cand[0] if cand else init.node, "candidates = all given keys (zero and non-zero)", "", "candidate set is not taken from the full input interval")
 
 
@@ -181,7 +181,7 @@ def r3_name_bt(ctx):
         t, nrm = comps
         g = t.generators[0]
         perm = astx.u(g.target)
-        good = astx.u(g.iter) in (f"it.permutations({dct}.keys(), len({dct}))", f"it.permutations({dct}.keys())") and astx.u(t.key) == perm \
+        good = astx.u(g.iter) in (f"it.permutations({dct}.keys())", f"it.permutations({dct})") and astx.u(t.key) == perm \
             and astx.u(t.value) == f"self._make_pow(pull_perm({perm}))" and not g.ifs
         summ = astx.unique_def(f.node, "summ")
         tname = astx.u(astx.stmt_of(t, astx.parents(f.node)).targets[0])
